@@ -359,6 +359,10 @@ func (r *deserContext) decodeBinary() Item {
 			if r.Err != nil {
 				break
 			}
+			if err := IsValidMapKey(key); err != nil {
+				r.Err = err
+				return nil
+			}
 			m.Add(key, value)
 		}
 		return m
